@@ -104,7 +104,8 @@ def judge(byc, res):
 def cfgs(tier):
     cs = [l3.Cfg("base"),
           l3.Cfg("quote", num=True, bool=True, replacement='q"uo\\te é漢 <x>'),
-          l3.Cfg("empty", replacement="", num=True)]
+          l3.Cfg("empty", replacement="", num=True),
+          l3.Cfg("esc", replacement="C:\\temp\\new \\u2588 a\\\\b", ns=True, bool=True)]
     if tier == "thorough":
         cs += [l3.Cfg("nl", replacement="tab\there", bool=True), l3.Cfg("long", replacement="R" * 300), l3.Cfg("ns", ns=True, ips=True, replacement="Ω")]
     return cs
@@ -112,8 +113,12 @@ def cfgs(tier):
 
 def run(tier):
     v = common.Verdict(PID, tier, "model_checking")
-    b = common.build(need_inproc=False)
+    b = common.build()
     cs = cfgs(tier)
+    try:
+        vocab_fields, _ = l3.vocabulary_fields(b)
+    except Exception:
+        vocab_fields = None
     rp = l3.Replay(b, v, cs, "checks.c05:judge", variants=3 if tier == "quick" else 4, styles=l3.CLASH_STYLES, clash=True)
     cov = l3.EdgeCoverage(rp.sink)
     dump = l3.grammar_dump()
@@ -125,6 +130,10 @@ def run(tier):
     plan = [("RedactorEW", {}, rp.sink),
             ("RedactorGM", dict(gm, GMDepth="0", GMKinds=allkinds, GMSeeds=seeds), cov.sink),
             ("RedactorGM", gm, cov.sink)]
+    if vocab_fields:
+        # every non-$ word of the operator tables (from, into, coll, db, path, query ...) as a *user field name* holding literals of every class
+        plan.append(("RedactorGM", dict(gm, GMDepth="3", GMWide="0", GMFields=vocab_fields, GMKinds='{"plain","email","date","oid"}',
+                                        GMSlots='{"filter","documents","update","updates"}'), cov.sink))
     if tier == "thorough":
         plan.append(("RedactorGM", dict(gm, GMDepth="7", GMMaxFld="2", GMMaxArr="2", GMTail="2"), cov.sink))
     states = trans = 0
